@@ -23,8 +23,8 @@ theorem compareFunctions_perm {file : Path} {svc : String} {o o' fromFns toFns t
     (ho : o.Perm o') (ht : ∀ fn, fn ∈ toFns ↔ fn ∈ toFns') :
     (compareFunctions file svc o fromFns toFns).Perm (compareFunctions file svc o' fromFns toFns') := by
   unfold compareFunctions
-  have hf : (fun n => if toFns.contains n then none else some (Diag.removedMethod (baseName file) svc n)) =
-      (fun n => if toFns'.contains n then none else some (Diag.removedMethod (baseName file) svc n)) := by
+  have hf : (fun n => if toFns.contains n then none else some (Diag.removedMethod file svc n)) =
+      (fun n => if toFns'.contains n then none else some (Diag.removedMethod file svc n)) := by
     funext n
     have : toFns.contains n = toFns'.contains n := by
       rw [Bool.eq_iff_iff]; simpa using ht n
